@@ -76,10 +76,10 @@ def run(ctx):
     for name, cx, fams in GROUPS:
         ctx.tlc("blas/BlasGen.tla", "blas/BlasGen.cfg", workers=workers, timeout=1500,
                 name="R1 semantics theorems (footprint, poison independence, exactness, solves) " + name,
-                subst=base_subst(ctx, cx, fams, 250 if thorough else 60, checks=True))
+                subst=base_subst(ctx, cx, fams, 250 if thorough else 40, checks=True))
 
     # ---- R2: generated calls replayed into gonum ------------------------------
-    target = {"L1": 4000, "L2": 2500, "L3": 1200} if thorough else {"L1": 800, "L2": 600, "L3": 400}
+    target = {"L1": 4000, "L2": 2000, "L3": 1000} if thorough else {"L1": 600, "L2": 400, "L3": 300}
     for name, cx, fams in GROUPS:
         cases = ctx.gen("blas/BlasGen.tla", "blas/BlasGen.cfg", workers=workers, name="R2 gen " + name,
                         subst=base_subst(ctx, cx, fams, target[name[:2]]))
@@ -88,9 +88,9 @@ def run(ctx):
     # block-edge and parallel-threshold shapes (64-element blocks, >= 4 blocks => parallel gemm)
     for name, cx, fams, lvl in BIG:
         if lvl == 1 and not thorough:
-            fams = fams[:1] + fams[2:3] + fams[4:]      # quick: gemm, syrk/herk, trmm
+            fams = fams[:1] + fams[2:3]      # quick: gemm, syrk/herk
         dims = [63, 64, 65, 129] if thorough else [63, 64, 65]
-        tg = (40 if lvl == 2 else 8) if thorough else (10 if lvl == 2 else 1)
+        tg = (40 if lvl == 2 else 5) if thorough else (10 if lvl == 2 else 1)
         cases = ctx.gen("blas/BlasGen.tla", "blas/BlasGen.cfg", workers=workers, name="R2 gen " + name, timeout=2400,
                         subst=base_subst(ctx, cx, fams, tg, DIMS=tset(dims), DIMS3=tset(dims), RAY="{}", INCMAX=2))
         for bn, _ in builds:
